@@ -1,5 +1,12 @@
 #!/bin/bash
-# independent re-check of every compiled property file (and everything it depends on) with coqchk; prints the axioms relied on
-cd /verif/coq || exit 2
-mods=$(ls Props/*.v | sed 's/\.v$//; s/\//./; s/^/EoNV./' | tr '\n' ' ')
-timeout 7200 coqchk -silent -o -Q . EoNV $mods 2>&1 | tail -40
+# Independent re-check (coqchk) of every compiled property file and everything it depends on; one coqchk process per
+# Props file (8 at a time).  Writes /verif/coqchk_report.txt: per file the exit status and the axiom summary coqchk prints.
+# Run it on a quiet tree (no concurrent make in /verif/coq): ./check setup && tools/coqchk_all.sh
+cd "$(dirname "$0")/../coq" || exit 2
+T=$(mktemp -d)
+ls Props/*.v | sed 's/\.v$//; s/\//./; s/^/EoNV./' | xargs -P8 -I{} sh -c "timeout 3000 coqchk -silent -o -Q . EoNV {} > $T/{}.log 2>&1; echo \"{} rc=\$?\" >> $T/rc.txt"
+R=../coqchk_report.txt
+{ echo "coqchk $(coqchk -v 2>&1 | head -1) on $(date -u +%F) ; one process per Props file"; sort $T/rc.txt
+  echo; echo "Axiom summaries (identical lines collapsed):"
+  for f in $T/EoNV.*.log; do sed -n '/CONTEXT SUMMARY/,$p' $f | tr -s ' \n' ' '; echo; done | sort | uniq -c; } > $R
+bad=$(grep -c -v "rc=0" $T/rc.txt); rm -rf $T; cat $R | tail -8; exit $bad
